@@ -348,7 +348,7 @@ func Eq(a, b *Term) *Term {
 		}
 	}
 	if a.Op == "mk-slice" && b.Op == "mk-slice" {
-		return And(Eq(a.Args[0], b.Args[0]), Eq(a.Args[1], b.Args[1]), Eq(a.Args[2], b.Args[2]))
+		return And(Eq(a.Args[0], b.Args[0]), Eq(a.Args[1], b.Args[1]), Eq(a.Args[2], b.Args[2]), Eq(a.Args[3], b.Args[3]))
 	}
 	if a.id > b.id {
 		a, b = b, a
@@ -533,7 +533,11 @@ func Store(arr, idx, v *Term) *Term {
 func ConstArray(s *Sort, v *Term) *Term { return mk("const-array", "", s, nil, v) }
 
 // Slice datatype
-func MkSlice(arr, off, ln *Term) *Term { return mk("mk-slice", "", SliceS, nil, arr, off, ln) }
+func MkSlice(arr, off, ln *Term) *Term { return MkSliceC(arr, off, ln, ln) }
+func MkSliceC(arr, off, ln, cp *Term) *Term {
+	return mk("mk-slice", "", SliceS, nil, arr, off, ln, cp)
+}
+func SCap(s *Term) *Term { return sliceAcc("s-cap", 3, s) }
 func sliceAcc(name string, i int, s *Term) *Term {
 	if s.Op == "mk-slice" {
 		return s.Args[i]
@@ -934,8 +938,10 @@ func rebuild(t *Term, args []*Term) *Term {
 		return SOff(args[0])
 	case "s-len":
 		return SLen(args[0])
+	case "s-cap":
+		return SCap(args[0])
 	case "mk-slice":
-		return MkSlice(args[0], args[1], args[2])
+		return MkSliceC(args[0], args[1], args[2], args[3])
 	}
 	if strings.HasPrefix(t.Op, "bv") && len(args) == 2 && t.S.K == KBV {
 		return BVBin(t.Op, args[0], args[1])
